@@ -27,6 +27,8 @@ pub fn run(r: &Report) {
         let (n_rt, n_out, n_wrong) = (AtomicU64::new(0), AtomicU64::new(0), AtomicU64::new(0));
         let printer = DateTimePrinter::new();
         let parser = DateTimeParser::new();
+        let relaxed = DateTimeParser::new().relaxed_weekday(true);
+        let strict = DateTimeParser::new().relaxed_weekday(false);
         let n = for_each_day_local(r, "rfc2822_roundtrip", 0, 9999, |s, l| {
             let date = ymd(s);
             for &tod in &tods {
@@ -82,6 +84,24 @@ pub fn run(r: &Report) {
                     Err(p) => l.viol(&format!("rfc2822::parse/{}", panic_sig(&p)), format!("{:?}", text), || p.clone()),
                     Ok(Err(_)) => {}
                     Ok(Ok(z)) => l.viol("rfc2822::parse/wrong-weekday-accepted", format!("{:?}", text), || format!("accepted as {}", z)),
+                }
+                // relaxed_weekday(true) takes the same text and ignores the name;
+                // relaxed_weekday(false) is the default again
+                match guard(|| (relaxed.parse_timestamp(&text), relaxed.parse_zoned(&text), strict.parse_timestamp(&text))) {
+                    Err(p) => l.viol(&format!("rfc2822::DateTimeParser::relaxed_weekday/{}", panic_sig(&p)), format!("{:?}", text), || p.clone()),
+                    Ok((t, z, st)) => {
+                        match (&t, &z) {
+                            (Ok(t), Ok(z)) => {
+                                if *t != ts || z.timestamp() != ts || z.offset().seconds() != 0 {
+                                    l.viol("rfc2822::DateTimeParser::relaxed_weekday(true)/value", format!("{:?}", text), || format!("parsed {} / {}", t, z));
+                                }
+                            }
+                            _ => l.viol("rfc2822::DateTimeParser::relaxed_weekday(true)/rejects-wrong-weekday", format!("{:?}", text), || format!("{:?} / {:?}", t.as_ref().map_err(|e| e.to_string()), z.as_ref().map(|z| z.to_string()).map_err(|e| e.to_string()))),
+                        }
+                        if st.is_ok() {
+                            l.viol("rfc2822::DateTimeParser::relaxed_weekday(false)/wrong-weekday-accepted", format!("{:?}", text), || "accepted".to_string());
+                        }
+                    }
                 }
             }
             for (what, want, got) in [
@@ -227,4 +247,340 @@ pub fn run(r: &Report) {
         r.add_validated(n);
         r.count("rfc2822_obsolete.cases", n);
     });
+
+    r.section("rfc2822_offsets", || offsets(r));
+    r.section("rfc2822_forms", || forms(r));
+}
+
+/// Expected text of the printer for a civil reading and an offset: the offset
+/// is printed to the minute, rounded half away from zero on its seconds
+/// (src/fmt/rfc2822.rs documents the rounding) - except within 30 seconds of
+/// the largest offset, where rounding up would give the hour 26, which is not
+/// an offset the parser (or jiff's Offset type) admits: truncated to 25:59.
+fn rounded_minutes(off: i64) -> i64 {
+    let a = off.abs();
+    let m = (a / 60 + if a % 60 >= 30 { 1 } else { 0 }).min(25 * 60 + 59);
+    if off < 0 {
+        -m
+    } else {
+        m
+    }
+}
+
+/// Every offset jiff supports, and instants with fractions on both sides of
+/// the epoch: the civil reading is that of the true offset, the fraction is
+/// dropped ("as if truncating any fractional seconds"), the printed offset is
+/// the rounded one, and the text parses back to the printed reading.
+fn offsets(r: &Report) {
+    use rayon::prelude::*;
+    let sec = "rfc2822_offsets";
+    let printer = DateTimePrinter::new();
+    let offs: Vec<i64> = (-93_599..=93_599).collect();
+    let instants: [i128; 8] = [1_700_000_000_000_000_000, 0, -1, -500_000_000, -999_999_999, 999_999_999, -1_000_000_001, 1_700_000_000_999_999_999];
+    let (n_round, n_2600, n_frac) = (AtomicU64::new(0), AtomicU64::new(0), AtomicU64::new(0));
+    let quick = r.quick();
+    offs.par_iter().for_each(|&o| {
+        let off = Offset::from_seconds(o as i32).unwrap();
+        let tz = TimeZone::fixed(off);
+        // all instants for the boundary offsets, one otherwise
+        let boundary = o.abs() <= 61 || o.abs() % 3600 <= 61 || o.abs() % 3600 >= 3539 || o.abs() >= 93_500;
+        for (k, &ns) in instants.iter().enumerate() {
+            if k > 0 && !boundary && quick {
+                break;
+            }
+            let ts = Timestamp::from_nanosecond(ns).unwrap();
+            let zdt = ts.to_zoned(tz.clone());
+            let sec_floor = ns.div_euclid(1_000_000_000) as i64;
+            if ns.rem_euclid(1_000_000_000) != 0 {
+                n_frac.fetch_add(1, Relaxed);
+            }
+            let civ = sec_floor + o;
+            let s = succ_at(civ.div_euclid(86_400));
+            let tod = civ.rem_euclid(86_400);
+            let rm = rounded_minutes(o);
+            if rm * 60 != o {
+                n_round.fetch_add(1, Relaxed);
+            }
+            let zone = format!("{}{:02}{:02}", if o < 0 { '-' } else { '+' }, rm.abs() / 60, rm.abs() % 60);
+            let want = text_2822(&s, s.wd as usize, tod, &zone, false);
+            let case = format!("{} offset {}s", vf::conv::fmt_ns(ns), o);
+            let got = guard(|| {
+                let a = rfc2822::to_string(&zdt).map_err(|e| e.to_string());
+                let b = printer.zoned_to_string(&zdt).map_err(|e| e.to_string());
+                let mut c = String::new();
+                let c = printer.print_zoned(&zdt, &mut c).map(|_| c).map_err(|e| e.to_string());
+                (a, b, c)
+            });
+            let text = match got {
+                Err(p) => {
+                    r.viol(sec, &format!("rfc2822::to_string/{}", panic_sig(&p)), case, p);
+                    continue;
+                }
+                Ok((a, b, c)) => {
+                    if a != b || a != c {
+                        r.viol(sec, "rfc2822::DateTimePrinter::print_zoned/differs-from-to_string", case.clone(), format!("{:?} {:?} {:?}", a, b, c));
+                    }
+                    match a {
+                        Err(e) => {
+                            r.viol(sec, "rfc2822::to_string/unexpected-error", case, e);
+                            continue;
+                        }
+                        Ok(t) => t,
+                    }
+                }
+            };
+            if text != want {
+                r.viol(sec, &format!("rfc2822::to_string/text{}", if rm * 60 != o { ":offset-with-seconds" } else { "" }), case.clone(), format!("jiff {:?} expected {:?}", text, want));
+                continue;
+            }
+            // parse back: the reading and the printed offset
+            let want_unix = civ - rm * 60;
+            // the edge class: would have been printed as 2600 by plain rounding
+            let unparsable = o.abs() >= 25 * 3600 + 59 * 60 + 30;
+            if unparsable {
+                n_2600.fetch_add(1, Relaxed);
+            }
+            match guard(|| rfc2822::parse(&text)) {
+                Err(p) => r.viol(sec, &format!("rfc2822::parse/{}", panic_sig(&p)), case, format!("text {:?}: {}", text, p)),
+                Ok(Err(e)) => r.viol(sec, if unparsable { "rfc2822::parse/rejects-printed-text:|offset|>=25:59:30(printed as 2600)" } else { "rfc2822::parse/rejects-printed-text" }, case, format!("text {:?}: {}", text, e)),
+                Ok(Ok(z)) => {
+                    if z.timestamp().as_second() != want_unix || z.timestamp().subsec_nanosecond() != 0 || z.offset().seconds() as i64 != rm * 60 {
+                        r.viol(sec, "rfc2822::parse/roundtrip-value", case, format!("text {:?} parsed {} expected unix {} offset {}s", text, z, want_unix, rm * 60));
+                    }
+                }
+            }
+        }
+    });
+    // the Timestamp printers on fractional instants (always UTC), and negative years
+    let mut n = 0u64;
+    for t in vf::pools::timestamps().into_iter().chain(instants.iter().map(|&ns| Timestamp::from_nanosecond(ns).unwrap())) {
+        n += 1;
+        let ns = t.as_nanosecond();
+        let sec_floor = ns.div_euclid(1_000_000_000) as i64;
+        let s = succ_at(sec_floor.div_euclid(86_400));
+        let tod = sec_floor.rem_euclid(86_400);
+        let case = vf::conv::fmt_ns(ns);
+        let got = guard(|| {
+            let mut a = String::new();
+            let mut b = String::new();
+            (
+                printer.timestamp_to_string(&t).map_err(|e| e.to_string()),
+                printer.print_timestamp(&t, &mut a).map(|_| a).map_err(|e| e.to_string()),
+                printer.timestamp_to_rfc9110_string(&t).map_err(|e| e.to_string()),
+                printer.print_timestamp_rfc9110(&t, &mut b).map(|_| b).map_err(|e| e.to_string()),
+                rfc2822::to_string(&t.to_zoned(TimeZone::UTC)).map_err(|e| e.to_string()),
+            )
+        });
+        match got {
+            Err(p) => r.viol(sec, &format!("rfc2822::DateTimePrinter::print_timestamp/{}", panic_sig(&p)), case, p),
+            Ok((a, a2, b, b2, c)) => {
+                if a != a2 {
+                    r.viol(sec, "rfc2822::DateTimePrinter::print_timestamp/differs-from-timestamp_to_string", case.clone(), format!("{:?} {:?}", a, a2));
+                }
+                if b != b2 {
+                    r.viol(sec, "rfc2822::DateTimePrinter::print_timestamp_rfc9110/differs-from-timestamp_to_rfc9110_string", case.clone(), format!("{:?} {:?}", b, b2));
+                }
+                if s.y < 0 {
+                    // documented: a negative year cannot be represented
+                    for (what, x) in [("timestamp_to_string", &a), ("timestamp_to_rfc9110_string", &b), ("to_string", &c)] {
+                        if let Ok(t) = x {
+                            r.viol(sec, &format!("rfc2822::{}/negative-year-printed", what), case.clone(), t.clone());
+                        }
+                    }
+                } else {
+                    for (what, x, want) in [("timestamp_to_string", &a, text_2822(&s, s.wd as usize, tod, "-0000", false)), ("timestamp_to_rfc9110_string", &b, text_2822(&s, s.wd as usize, tod, "GMT", true)), ("to_string", &c, text_2822(&s, s.wd as usize, tod, "+0000", false))] {
+                        if x.as_deref() != Ok(want.as_str()) {
+                            r.viol(sec, &format!("rfc2822::{}/text:fraction-or-boundary", what), case.clone(), format!("jiff {:?} expected {:?}", x, want));
+                        }
+                    }
+                }
+            }
+        }
+    }
+    for d in vf::pools::dates() {
+        if d.year() >= 0 {
+            continue;
+        }
+        n += 1;
+        if let Ok(z) = d.at(12, 0, 0, 0).to_zoned(TimeZone::UTC) {
+            match guard(|| (rfc2822::to_string(&z), printer.timestamp_to_rfc9110_string(&z.timestamp()))) {
+                Err(p) => r.viol(sec, &format!("rfc2822::to_string/{}", panic_sig(&p)), d.to_string(), p),
+                Ok((a, b)) => {
+                    if a.is_ok() || b.is_ok() {
+                        r.viol(sec, "rfc2822::to_string/negative-year-printed", d.to_string(), format!("{:?} {:?}", a.ok(), b.ok()));
+                    }
+                }
+            }
+        }
+    }
+    let total = offs.len() as u64 + n;
+    r.add_states(total);
+    r.add_transitions(total * 4);
+    r.add_validated(total * 2);
+    r.count("rfc2822_offsets.offsets", offs.len() as u64);
+    r.outcome("rfc2822_offsets.offset_rounded_to_the_minute", n_round.load(Relaxed));
+    r.outcome("rfc2822_offsets.rounded_to_26:00", n_2600.load(Relaxed));
+    r.outcome("rfc2822_offsets.fractional_instants", n_frac.load(Relaxed));
+    r.require(n_round.load(Relaxed) > 100_000 && n_2600.load(Relaxed) > 0 && n_frac.load(Relaxed) > 100, "offsets with seconds, the 26:00 edge and fractional instants printed");
+}
+
+/// The input forms RFC 2822 section 3.3 / 4.3 and jiff's documentation allow.
+fn forms(r: &Report) {
+    let sec = "rfc2822_forms";
+    let parser = DateTimeParser::new();
+    let (n_ok, n_err) = (AtomicU64::new(0), AtomicU64::new(0));
+    let accept = |text: &str, class: &str, unix: i64, off: i64| {
+        match guard(|| (parser.parse_zoned(text), parser.parse_zoned(text.as_bytes()), parser.parse_timestamp(text), text.is_ascii().then(|| rfc2822::parse(text)))) {
+            Err(p) => r.viol(sec, &format!("rfc2822::DateTimeParser::parse_zoned/{}", panic_sig(&p)), format!("{:?}", text), p),
+            Ok((z, zb, t, zs)) => {
+                let flat = |x: &Result<jiff::Zoned, jiff::Error>| x.as_ref().ok().map(|z| (z.timestamp().as_nanosecond(), z.offset().seconds() as i64));
+                if flat(&z) != flat(&zb) || flat(&z).map(|x| x.0) != t.as_ref().ok().map(|t| t.as_nanosecond()) || zs.as_ref().map(|x| flat(x)).unwrap_or(flat(&z)) != flat(&z) {
+                    r.viol(sec, "rfc2822::parse/entry-points-differ", format!("{:?}", text), format!("{:?} {:?} {:?}", flat(&z), flat(&zb), t.as_ref().ok()));
+                }
+                match z {
+                    Err(e) => r.viol(sec, &format!("rfc2822::DateTimeParser::parse_zoned/rejects-documented-form{}", class), format!("{:?}", text), e.to_string()),
+                    Ok(z) => {
+                        if flat(&Ok(z.clone())) == Some((unix as i128 * 1_000_000_000, off)) {
+                            n_ok.fetch_add(1, Relaxed);
+                        } else {
+                            r.viol(sec, &format!("rfc2822::DateTimeParser::parse_zoned/value{}", class), format!("{:?}", text), format!("parsed {} expected unix {} offset {}s", z, unix, off));
+                        }
+                    }
+                }
+            }
+        }
+    };
+    let refuse = |p: &DateTimeParser, text: &str, class: &str| match guard(|| (p.parse_zoned(text), p.parse_timestamp(text))) {
+        Err(pm) => r.viol(sec, &format!("rfc2822::DateTimeParser::parse_zoned/{}", panic_sig(&pm)), format!("{:?}", text), pm),
+        Ok((Err(_), Err(_))) => {
+            n_err.fetch_add(1, Relaxed);
+        }
+        Ok((z, t)) => r.viol(sec, &format!("rfc2822::DateTimeParser::parse_zoned/accepts-invalid{}", class), format!("{:?}", text), format!("{:?} {:?}", z.map(|z| z.to_string()).ok(), t.ok())),
+    };
+    let relaxed = DateTimeParser::new().relaxed_weekday(true);
+    // thorough: also every day of a leap year and of the year after it
+    let more: Vec<jiff::civil::Date> = if r.quick() { vec![] } else { (0..731).filter_map(|k| vf::conv::date_from_epoch_day(refmodel::cal::days_from_civil(2024, 1, 1) + k)).collect() };
+    for d in vf::pools::dates().into_iter().chain((1..=12).map(|m| jiff::civil::Date::new(1995, m, 5 + m).unwrap())).chain(more) {
+        if d.year() < 0 {
+            continue;
+        }
+        let s = succ_at(vf::conv::date_epoch_day(d));
+        let (wd, mon) = (WD_ABBR[s.wd as usize], MON_ABBR[(s.m - 1) as usize]);
+        let tod = 45_296i64;
+        let unix = s.epoch_day * 86_400 + tod;
+        if unix > vf::zones::TS_MAX_SEC - 3600 {
+            continue;
+        }
+        let y4 = format!("{:04}", s.y);
+        // the canonical text and its optional parts
+        accept(&format!("{}, {} {} {} 12:34:56 +0000", wd, s.d, mon, y4), "", unix, 0);
+        accept(&format!("{}, {:02} {} {} 12:34:56 +0000", wd, s.d, mon, y4), ":two-digit-day", unix, 0);
+        accept(&format!("{} {} {} 12:34:56 +0000", s.d, mon, y4), ":no-weekday", unix, 0);
+        accept(&format!("{}, {} {} {} 12:34 +0000", wd, s.d, mon, y4), ":no-seconds", unix - 56, 0);
+        accept(&format!("{} {} {} 12:34 -0000", s.d, mon, y4), ":no-weekday-no-seconds", unix - 56, 0);
+        accept(&format!("{}, {} {} {} 12:34:56 -0000", wd, s.d, mon, y4), ":minus-zero", unix, 0);
+        accept(&format!("{}, {} {} {} 12:34:56 +0130", wd, s.d, mon, y4), ":east", unix - 5400, 5400);
+        accept(&format!("{}, {} {} {} 12:34:56 -0030", wd, s.d, mon, y4), ":west-under-an-hour", unix + 1800, -1800);
+        accept(&format!("{}, {} {} {} 12:34:60 +0000", wd, s.d, mon, y4), ":leap-second-constrained", unix + 3, 0);
+        // names without regard to case
+        for (w2, m2) in [(wd.to_lowercase(), mon.to_lowercase()), (wd.to_uppercase(), mon.to_uppercase()), (wd.to_string(), mon.to_uppercase())] {
+            accept(&format!("{}, {} {} {} 12:34:56 +0000", w2, s.d, m2, y4), ":name-case", unix, 0);
+        }
+        // folding white space between the tokens (CRLF + WSP unfolds to WSP)
+        accept(&format!("  {},  {}  {}\t{}   12:34:56\t+0000  ", wd, s.d, mon, y4), ":extra-whitespace", unix, 0);
+        accept(&format!("{},\r\n {} {} {}\r\n 12:34:56\r\n +0000\r\n", wd, s.d, mon, y4), ":folding-whitespace", unix, 0);
+        // trailing comments (documented: after the datetime, nesting allowed)
+        for c in ["(UTC)", " (UTC)", " (a (nested (comment))) ", " (an escaped \\) parenthesis)", " (an escaped \\( parenthesis)", " ()", " (\u{e9})"] {
+            accept(&format!("{}, {} {} {} 12:34:56 +0000{}", wd, s.d, mon, y4, c), ":trailing-comment", unix, 0);
+        }
+        accept(&format!("{}, {} {} {} 12:34:56 GMT (Greenwich)", wd, s.d, mon, y4), ":trailing-comment", unix, 0);
+        for (c, class) in [(" (unclosed", ":unclosed-comment"), (" (a (b)", ":unclosed-comment"), (" (closed) trailing", ":text-after-comment"), (" (a) (b)", ":two-comments"), (" trailing", ":trailing-text"), (" )", ":stray-parenthesis")] {
+            refuse(&parser, &format!("{}, {} {} {} 12:34:56 +0000{}", wd, s.d, mon, y4, c), class);
+        }
+        // obsolete zones: the named ones, every military letter (taken as
+        // -0000 as the RFC recommends), unknown alphabetic names
+        for (zone, hours) in [("UT", 0i64), ("GMT", 0), ("EST", -5), ("EDT", -4), ("CST", -6), ("CDT", -5), ("MST", -7), ("MDT", -6), ("PST", -8), ("PDT", -7)] {
+            for z in [zone.to_string(), zone.to_lowercase()] {
+                accept(&format!("{}, {} {} {} 12:34:56 {}", wd, s.d, mon, y4, z), ":obsolete-zone", unix - hours * 3600, hours * 3600);
+            }
+        }
+        if s.y == 2024 || s.y == 1970 {
+            for c in (b'A'..=b'Z').chain(b'a'..=b'z') {
+                if c.to_ascii_uppercase() == b'J' {
+                    continue;
+                }
+                accept(&format!("{}, {} {} {} 12:34:56 {}", wd, s.d, mon, y4, c as char), ":military-zone", unix, 0);
+            }
+            for z in ["XYZ", "CEST", "ABCDE", "wet"] {
+                accept(&format!("{}, {} {} {} 12:34:56 {}", wd, s.d, mon, y4, z), ":unknown-alphabetic-zone", unix, 0);
+            }
+        }
+        // refusals: the grammar
+        for (text, class) in [
+            (format!("{} {} {} {} 12:34:56 +0000", wd, s.d, mon, y4), ":weekday-without-comma"),
+            (format!("{},{} {} {} 12:34:56 +0000", wd, s.d, mon, y4), ":no-space-after-comma"),
+            (format!("Wat, {} {} {} 12:34:56 +0000", s.d, mon, y4), ":not-a-weekday"),
+            (format!("{}, {} Jax {} 12:34:56 +0000", wd, s.d, y4), ":not-a-month"),
+            (format!("{}, {} {} {} 12:34:56", wd, s.d, mon, y4), ":no-zone"),
+            (format!("{}, {} {} {} 12:34:56 ", wd, s.d, mon, y4), ":no-zone"),
+            (format!("{}, {} {} {} 12:34:56 0000", wd, s.d, mon, y4), ":unsigned-zone"),
+            (format!("{}, {} {} {} 12:34:56 +000", wd, s.d, mon, y4), ":short-zone"),
+            (format!("{}, {} {} {} 12:34:56 +2600", wd, s.d, mon, y4), ":offset-hours>25(documented)"),
+            (format!("{}, {} {} {} 12:34:56 +9959", wd, s.d, mon, y4), ":offset-hours>25(documented)"),
+            (format!("{}, {} {} {} 12:34:56 +0060", wd, s.d, mon, y4), ":offset-minutes>59"),
+            (format!("{}, {} {} {} 24:00:00 +0000", wd, s.d, mon, y4), ":hour-24"),
+            (format!("{}, {} {} {} 12:60:00 +0000", wd, s.d, mon, y4), ":minute-60"),
+            (format!("{}, {} {} {} 12:34:61 +0000", wd, s.d, mon, y4), ":second-61"),
+            (format!("{}, {} {} {} 1:34:56 +0000", wd, s.d, mon, y4), ":one-digit-hour"),
+            (format!("{}, {} {} {} 12:34:56+0000", wd, s.d, mon, y4), ":no-space-before-zone"),
+            (format!("{}, {} {} {}12:34:56 +0000", wd, s.d, mon, y4), ":no-space-after-year"),
+            (format!("{}, {}{} {} 12:34:56 +0000", wd, s.d, mon, y4), ":no-space-after-day"),
+            (format!("{}, 0 {} {} 12:34:56 +0000", wd, mon, y4), ":day-0"),
+            (format!("{}, 32 {} {} 12:34:56 +0000", wd, mon, y4), ":day-32"),
+            (format!("{}, {} {} {} +0000", wd, s.d, mon, y4), ":no-time"),
+            (format!("{}, {} {} 12:34:56 +0000", wd, s.d, mon), ":no-year"),
+            (format!("{}, {} {} 1{} 12:34:56 +0000", wd, s.d, mon, y4), ":five-digit-year"),
+            (format!("{}, {} {} {} 12:34:56 J", wd, s.d, mon, y4), ":military-J(not a zone)"),
+            (format!("{}, {} {} {} 12:34:56 +00:00", wd, s.d, mon, y4), ":colon-in-zone"),
+            (String::new(), ":empty"),
+            ("   ".to_string(), ":whitespace-only"),
+        ] {
+            refuse(&parser, &text, class);
+        }
+        refuse(&relaxed, &format!("Wat, {} {} {} 12:34:56 +0000", s.d, mon, y4), ":not-a-weekday(relaxed)");
+    }
+    // calendar validity of day/month/year
+    for y in [1900i64, 2000, 2023, 2024] {
+        for m in 1..=12i64 {
+            for d in 1..=31i64 {
+                let text = format!("{} {} {} 00:00:00 +0000", d, MON_ABBR[(m - 1) as usize], y);
+                if refmodel::cal::valid_date(y, m, d) {
+                    accept(&text, ":valid-date", refmodel::cal::days_from_civil(y, m, d) * 86_400, 0);
+                } else {
+                    refuse(&parser, &text, ":invalid-date");
+                }
+            }
+        }
+    }
+    // every second of a day, with and without the seconds field
+    for tod in (0..86_400i64).step_by(61) {
+        let (h, mi, s) = (tod / 3600, (tod / 60) % 60, tod % 60);
+        accept(&format!("9 Jul 2024 {:02}:{:02}:{:02} +0000", h, mi, s), ":time", 19_913 * 86_400 + tod, 0);
+        accept(&format!("9 Jul 2024 {:02}:{:02} +0000", h, mi), ":time-no-seconds", 19_913 * 86_400 + tod - s, 0);
+    }
+    // every offset to the minute the parser documents (hours up to 25)
+    for m in 0..(26 * 60i64) {
+        for sg in [1i64, -1] {
+            let text = format!("9 Jul 2024 12:00:00 {}{:02}{:02}", if sg < 0 { '-' } else { '+' }, m / 60, m % 60);
+            accept(&text, ":offset", 19_913 * 86_400 + 43_200 - sg * m * 60, sg * m * 60);
+        }
+    }
+    let total = n_ok.load(Relaxed) + n_err.load(Relaxed);
+    r.add_states(total);
+    r.add_transitions(total * 3);
+    r.add_validated(total);
+    r.count("rfc2822_forms.cases", total);
+    r.outcome("rfc2822_forms.accepted_with_the_named_value", n_ok.load(Relaxed));
+    r.outcome("rfc2822_forms.refused", n_err.load(Relaxed));
+    r.require(n_ok.load(Relaxed) > 5_000 && n_err.load(Relaxed) > 500, "RFC 2822 forms accepted and refused");
 }
